@@ -25,7 +25,7 @@ import (
 func TestVerifC20(t *testing.T) {
 	vfMain(t, vfCheck{
 		ID: "C20", Level: "fault_enumeration",
-		Rule:        "for each of ~47 Client/File operations (single-request calls, composite calls, multi-chunk transfers under both concurrency settings, transfers in one-byte packets) and each request the operation issues (first 8), the valid reply is replaced by: a well-framed cut at every byte, every 4-byte window replaced by hostile lengths/counts {0,1,n-1,n+1,2^20,2^31-1,2^32-1} (quick: 3 of the 7 per window), each other reply type (ATTRS also with sizes 2^63-1, 2^63, 2^64-2, 2^64-1), a wrong id, random bodies, an over-long DATA, a length prefix promising up to 2^32-1 bytes; every process first runs a session with MaxPacketUnchecked(2^30) (no package-level state may carry over). A class is (operation, request index, reply type, mutation kind).",
+		Rule:        "for each of ~49 Client/File operations (single-request calls, composite calls, multi-chunk transfers under both concurrency settings, transfers in one-byte packets) and each request the operation issues (first 8), the valid reply is replaced by: a well-framed cut at every byte, every 4-byte window replaced by hostile lengths/counts {0,1,n-1,n+1,2^20,2^31-1,2^32-1} (quick: 3 of the 7 per window), each other reply type (ATTRS also with sizes 2^63-1, 2^63, 2^64-2, 2^64-1), a wrong id, random bodies, an over-long DATA, a length prefix promising up to 2^32-1 bytes; every process first runs a session with MaxPacketUnchecked(2^30) (no package-level state may carry over). A class is (operation, request index, reply type, mutation kind).",
 		Assumptions: []string{"allocation bound per operation: 64 x bytes received + 3 MiB (client configured with 1 KiB packets and 4 concurrent requests so that legitimate buffers stay small)", "plain build (allocation meter); background panics are attributed through the child journal"},
 		Units:       func(tier vfTier, seed uint64) int { return len(c20Ops()) },
 		Shards: func(tier vfTier) int {
@@ -110,6 +110,9 @@ func c20Ops() []c20Op {
 		{"File.WriteTo-seq", seq, withFile(func(f *File) error { return e(f.WriteTo(io.Discard)) })},
 		{"File.WriteTo-conc", con, withFile(func(f *File) error { return e(f.WriteTo(io.Discard)) })},
 		{"File.WriteTo-conc-fstat", append([]ClientOption{UseFstat(true)}, con...), withFile(func(f *File) error { return e(f.WriteTo(io.Discard)) })},
+		// a destination that can be told to grow (bytes.Buffer): the size a reply claims must not be taken at its word
+		{"File.WriteTo-conc-buffer", con, withFile(func(f *File) error { var b bytes.Buffer; return e(f.WriteTo(&b)) })},
+		{"File.WriteTo-seq-buffer", seq, withFile(func(f *File) error { var b bytes.Buffer; return e(f.WriteTo(&b)) })},
 		// one-byte packets: the worker count is derived from size/packet-size (+1), which an absurd size can wrap
 		{"File.WriteTo-conc-P1", append([]ClientOption{MaxPacketUnchecked(1)}, con...), withFile(func(f *File) error { return e(f.WriteTo(&c20LimitWriter{left: 40})) })},
 		{"File.WriteTo-conc-P1-fstat", append([]ClientOption{MaxPacketUnchecked(1), UseFstat(true)}, con...), withFile(func(f *File) error { return e(f.WriteTo(&c20LimitWriter{left: 40})) })},
@@ -248,6 +251,9 @@ func c20Mutations(u *vfUnit, valid vfPkt) []c20Mut {
 		{Type: rfStatus, ID: valid.ID, Code: rfOK}, {Type: rfStatus, ID: valid.ID, Code: rfEOF, Msg: "EOF"}, {Type: rfStatus, ID: valid.ID, Code: rfFailure, Msg: "boom"},
 		{Type: rfStatus, ID: valid.ID, Code: 0xFFFFFFFF, Msg: "?"},
 		{Type: rfHandle, ID: valid.ID, Handle: "zz"}, {Type: rfHandle, ID: valid.ID, Handle: ""},
+		// well-formed handles longer than the 256 bytes the draft allows (every later request has to carry them)
+		{Type: rfHandle, ID: valid.ID, Handle: strings.Repeat("h", 257)}, {Type: rfHandle, ID: valid.ID, Handle: strings.Repeat("H", 4096)},
+		{Type: rfAttrs, ID: valid.ID, Attrs: vfAttrs{Flags: 0xF, Size: 64 << 20, Perm: 0o100644}}, {Type: rfAttrs, ID: valid.ID, Attrs: vfAttrs{Flags: 0xF, Size: 3 << 30, Perm: 0o100644}},
 		{Type: rfData, ID: valid.ID, Data: []byte("0123456789")}, {Type: rfData, ID: valid.ID, Data: nil},
 		{Type: rfData, ID: valid.ID, Data: make([]byte, 5000)}, {Type: rfData, ID: valid.ID, Data: make([]byte, 200000)},
 		{Type: rfName, ID: valid.ID}, {Type: rfName, ID: valid.ID, Names: []vfName{{Name: "n", Long: "l"}, {Name: "m", Long: "k"}}},
